@@ -310,7 +310,7 @@ Lemma probe_layer_static c f um ld n :
   map static (ld_map (probe_layer c f um ld n)) = map static (ld_map ld).
 Proof.
   unfold probe_layer. destruct (lm_get (ld_map ld) n) as [l|] eqn:E; [|reflexivity].
-  destruct (l_state l =? st_error)%N; [reflexivity|]. cbn [ld_map].
+  cbv zeta. cbn [ld_map].
   destruct (lm_get_in _ _ _ E) as [_ Hn].
   eapply lm_set_static.
   - match goal with |- lm_get _ (l_name ?x) = _ => assert (Hx : l_name x = n) end.
